@@ -213,6 +213,32 @@ func leaves3(csss [][][]geom.Coord) []*geom.Coord {
 }
 
 func genC01(r *Rng, e *Emitter, n int) {
+	for _, bc := range bigCases(n >= 100000) {
+		stride, pts := bc[0], bc[1]
+		l := layoutForStride(stride)
+		cs := coordsOfFlat(stride, bigFlat(stride, pts))
+		e.tally("big-line")
+		e.emit("C01.set.line", fmt.Sprintf("(%d %s)", int(l), sxCoords1(cs)), guard(func() string {
+			g, err := geom.NewLineString(l).SetCoords(cs)
+			if err != nil {
+				return sxErr(err)
+			}
+			rb := guard(func() string { return "(ok " + sxCoords1(g.Coords()) + ")" })
+			return "(ok (" + sxG1(g.Layout(), g.Stride(), g.FlatCoords(), g.SRID()) + " " + rb + "))"
+		}))
+		if pts <= 2048 {
+			css := [][]geom.Coord{cs, coordsOfFlat(stride, bigFlat(stride, 5)), {}}
+			e.tally("big-poly")
+			e.emit("C01.set.poly", fmt.Sprintf("(%d %s)", int(l), sxCoords2(css)), guard(func() string {
+				g, err := geom.NewPolygon(l).SetCoords(css)
+				if err != nil {
+					return sxErr(err)
+				}
+				rb := guard(func() string { return "(ok " + sxCoords2(g.Coords()) + ")" })
+				return "(ok (" + sxG2(g.Layout(), g.Stride(), g.FlatCoords(), g.Ends(), g.SRID()) + " " + rb + "))"
+			}))
+		}
+	}
 	for i := 0; i < n; i++ {
 		l := r.layoutAny()
 		s := &shapeCtx{r: r, stride: l.Stride()}
